@@ -57,3 +57,5 @@ def m_data_ops(ex, c, args, m):
 
 @M.add(r'::new_boxed$')
 def m_new_boxed(ex, c, args, m): return boxed(Struct({}, 'SubstMethodImpl'))
+
+M.consts[r'(^|::)SLOT_TABLE$'] = lambda ex, body: Opaque(('static', 'SLOT_TABLE'))
